@@ -21,7 +21,9 @@ fn base(stats_each: bool) -> HistProp {
         (K::OpenFile, 3),
         (K::CreateFile, 14),
         (K::CreateDir, 8),
-        (K::Write, 30),
+        (K::Write, 24),
+        (K::NewFileWritten, 14),
+        (K::SeekTruncate, 6),
         (K::Seek, 5),
         (K::CloseFile, 4),
         (K::Truncate, 8),
